@@ -69,6 +69,11 @@ class MyPath(pathlib.PurePosixPath):
     pass
 
 
+class Odd:
+    def __repr__(self):
+        return '<odd>'
+
+
 class Plain:
     def __repr__(self):
         return 'Plain()'
@@ -91,6 +96,9 @@ FACTORIES = [
     ('purepath', lambda: pathlib.PurePosixPath('a/b/c')),
     ('path-subclass', lambda: MyPath('x/y')),
     ('struct_time', lambda: time.gmtime(86400)),
+    # a struct sequence whose repr cannot be parsed back (field-name resolution fails for THIS value)
+    ('struct_time-odd-member', lambda: time.struct_time((1, 2, 3, 4, 5, 6, 7, 8, Odd()))),
+    ('struct_time-2', lambda: time.gmtime(0)),
     ('version_info', lambda: sys.version_info),
     ('namedtuple', lambda: Point(1, [2, 3])),
     ('short-str', lambda: 'short'),
@@ -142,7 +150,7 @@ def norm(text):
 
 def projection():
     out = sorted(k for k in PRISTINE_DEFERRED if k not in PP._DEFERRED_DISPATCH_BY_NAME)
-    out += sorted('structseq:' + c.__qualname__ for c in list(PP._cnamedtuple_fieldnames_by_class.keys()))
+    out += sorted('structseq:' + c.__qualname__ for c in list(getattr(PP, '_cnamedtuple_fieldnames_by_class', {}).keys()))
     return out
 
 
